@@ -115,8 +115,10 @@ Definition pnode_eqb (a b : pnode) : bool :=
 
 Definition pi_eqb := list_eqb pnode_eqb.
 
-(** verdict of one probe: (model agrees, spec holds, failure has the signature of finding 1) *)
-Definition probe_verdict := (bool * bool * bool)%type.
+(** verdict of one probe: (model agrees, spec holds).  No known finding is
+    classified any more (C03-leaf-inner-confusion is fixed in chain33 c3a108e):
+    every accepted pair that is not in the state is a violation. *)
+Definition probe_verdict := (bool * bool)%type.
 
 Section Probes.
   Variable tbl : list bytes.
@@ -131,12 +133,10 @@ Section Probes.
 
   Definition els : smap := match o with None => [] | Some t => elements t end.
 
-  (** every digest the model's verification needs is in the table *)
+  (** every digest along the supplied path is in the table (a superset of what
+      the model's verification needs: it stops at the first node of height < 1) *)
   Definition chain_known (k v : bytes) (pi : list pnode) : bool :=
     negb (beq (chain Ht (leaf_hash Ht k v) pi) missing).
-
-  Definition kf1 (acc : bool) (pi : list pnode) : bool :=
-    acc && negb (no_confusable els) && has_leaf_shaped_node pi.
 
   Definition check_probe (p : probe) : probe_verdict :=
     match p with
@@ -151,7 +151,7 @@ Section Probes.
           | Some _, None => false
           | None, _ => true
           end in
-        (m, spec_prove els k res selfok, false)
+        (m, spec_prove els k res selfok)
     | PCons k res selfok =>
         let k := B tbl k in
         let m :=
@@ -169,17 +169,17 @@ Section Probes.
               spec_prove els k res selfok && kv_mem els k (B tbl v') && beq (B tbl r') troot
           | None => spec_prove els k res selfok
           end in
-        (m, s, false)
+        (m, s)
     | PVerify root k v pi acc =>
         let root := B tbl root in
         let k := B tbl k in
         let v := B tbl v in
         match pi with
-        | None => (negb acc, spec_malformed acc, false)
+        | None => (negb acc, spec_malformed acc)
         | Some ix =>
             let pi := PI ix in
             (Bool.eqb acc (verify_kv Ht root k v pi) && chain_known k v pi,
-             spec_verify els troot root k v acc, kf1 acc pi)
+             spec_verify els troot root k v acc)
         end
     | PStruct lh proot ix k v root acc =>
         let pi := PI ix in
@@ -187,17 +187,15 @@ Section Probes.
         let v := B tbl v in
         let root := B tbl root in
         (Bool.eqb acc (verify Ht (mk_proof (B tbl lh) pi (B tbl proot)) k v root) && chain_known k v pi,
-         spec_verify els troot root k v acc, kf1 acc pi)
-    | PPanic _ => (false, false, false)
+         spec_verify els troot root k v acc)
+    | PPanic _ => (false, false)
     end.
 End Probes.
 
 Definition combine_verdicts (vs : list probe_verdict) : verdict :=
-  let m := forallb (fun v => fst (fst v)) vs in
-  let s := forallb (fun v => snd (fst v)) vs in
-  (** known finding only if EVERY spec failure of the case has its signature *)
-  let k := forallb (fun v => snd (fst v) || snd v) vs in
-  (m, s, if negb s && k then 1%N else 0%N).
+  let m := forallb (fun v => fst v) vs in
+  let s := forallb (fun v => snd v) vs in
+  (m, s, 0%N).
 
 Definition check_case (c : case) : verdict :=
   match c with
